@@ -285,7 +285,11 @@ class JetPool(Pool):
             self.envdirs = [(E + 1, a, b) for E in range(nenv) for a in range(ndir) for b in range(ndir)]
         else:
             self.envdirs = []
-        self.ntlc = len(self.envdirs) if self.envdirs else nenv
+
+    @property
+    def ntlc(self):
+        """Number of TLC environments (gateaux mode: base environments + replacement environments)."""
+        return len(self.envdirs) if self.envdirs else self.nenv
 
     def _seed(self, E, sd, c):
         """Perturbation of component c: None | name | ("comp", k, name) | ("prod", a, b)."""
@@ -318,7 +322,7 @@ class JetPool(Pool):
     def tla_termval(self):
         envs = []
         if self.mode == "gateaux":
-            for E in range(self.nbase):
+            for E in range(self.nenv):  # base environments, then the replacement environments (same seeding)
                 tabs = []
                 for name, shape in self.terminals:
                     sd, td = self.seeds.get(name, (None, None))
